@@ -4,6 +4,7 @@ package sequtils
 
 import (
 	"github.com/biogo/biogo/feat"
+	"github.com/biogo/biogo/seq/alignment"
 	"github.com/biogo/biogo/seq/linear"
 )
 
@@ -156,4 +157,16 @@ func verifLemmaStitchLinear(dst, src *linear.Seq, fs feat.Set) error {
 //@   ensures [fresh] result == nil ==> fresh(dst.Seq) || len(dst.Seq) == 0
 func verifLemmaComposeLinear(dst, src *linear.Seq, fs feat.Set) error {
 	return Compose(dst, src, fs)
+}
+
+// ---- Truncate on a column-stored alignment (C07): exactly the requested columns are kept ----
+//@ func verifLemmaTruncateAlignment
+//@   property C07
+//@   lemma
+//@   requires src != nil && dst != nil && len(src.Seq) > 0
+//@   ensures [error-iff] (result != nil) <==> !(start >= old(src.Offset) && end <= old(src.Offset) + old(len(src.Seq)) && (start <= end || (old(src.Conform) != 0 && end >= old(src.Offset) && start <= old(src.Offset) + old(len(src.Seq)))))
+//@   ensures [columns]   result == nil && start <= end ==> len(dst.Seq) == end - start && dst.Offset == start && dst.Conform == 0 && forall k int :: 0 <= k && k < end - start ==> dst.Seq[k] == old(src.Seq[start - src.Offset + k])
+//@   ensures [rejected]  result != nil ==> dst.Seq == old(dst.Seq) && dst.Offset == old(dst.Offset) && src.Seq == old(src.Seq)
+func verifLemmaTruncateAlignment(dst, src *alignment.Seq, start, end int) error {
+	return Truncate(dst, src, start, end)
 }
